@@ -13,6 +13,7 @@ below therefore also says that *all other lists are untouched*.
 -/
 import Golib.Proof.C13DRefine
 import Golib.Proof.C13SRefine
+import Golib.Proof.C13SFamily
 
 namespace Golib.C13
 
@@ -323,8 +324,15 @@ theorem c13_all_loop :
         (acc : List (Nat × Int)), SAbs s a → SRangeOk body stop f i p a →
       ∃ s', SSt.rangeAll body stop f i p s acc =
           some (s', (SA.rangeAll body stop f i p a acc).2.1, (SA.rangeAll body stop f i p a acc).2.2) ∧
-        SAbs s' (SA.rangeAll body stop f i p a acc).1) :=
-  ⟨range_refines, srange_refines⟩
+        SAbs s' (SA.rangeAll body stop f i p a acc).1) ∧
+    -- a family of SLists: the body may call the API on ANY list of the family (DList bodies already
+    -- can: every `DOp` names its list)
+    (∀ (body : Nat → List (Nat × SOp)) (stop : Nat → Bool) (f i : Nat) (p : Ptr) (F : SFam) (a : FA)
+        (acc : List (Nat × Int)), FAbs F a → FRangeOk body stop f i p a →
+      ∃ F', SFam.rangeAll body stop f i p F acc =
+          some (F', (FA.rangeAll body stop f i p a acc).2.1, (FA.rangeAll body stop f i p a acc).2.2) ∧
+        FAbs F' (FA.rangeAll body stop f i p a acc).1) :=
+  ⟨range_refines, srange_refines, frange_refines⟩
 
 /-- Non-vacuity of `c13_all_loop`: on the list with values 1 … 5 (nodes 1 … 5 of list 0), removing
 the successor (node 2) in the first iteration yields 1 3 4 5; removing the current node yields
@@ -339,6 +347,118 @@ example :
     ((ASt.rangeAll (fun i => if i = 1 then [.insertAfter 0 9 2] else []) (fun _ => false) 100 0
         (a.seq 0).head? a []).2.1.map (·.2) = [1, 2, 9, 3, 4, 5]) := by
   decide
+
+/-- Loop bodies acting on the OTHER list: ranging over DList 0 = [1 2 3] while the body moves
+node 6 of list 1 and removes node 5 of list 1 does not disturb the loop; ranging over SList 0 =
+[1 2 3] while the body removes the current node and re-links it into SList 1 ends the loop on
+list 0 after one value and list 1 holds the node. -/
+example :
+    (let a : ASt := ((ASt.zero 2).run [.pushBack 0 1, .pushBack 0 2, .pushBack 0 3, .pushBack 1 8,
+        .pushBack 1 9]).1
+      let r := ASt.rangeAll (fun i => if i = 0 then [.moveToFront 1 6, .remove 1 5] else [])
+        (fun _ => false) 100 0 (a.seq 0).head? a []
+      r.2.1.map (·.2) = [1, 2, 3] ∧ r.1.seq 1 = [6]) ∧
+    (let a : FA := ((FA.zero 2).run [(0, .pushBack 1), (0, .pushBack 2), (0, .pushBack 3)]).1
+      let r := FA.rangeAll (fun i => if i = 0 then [(0, .remove 0), (1, .pushBackNode 0)] else [])
+        (fun _ => false) 100 0 (a.seq 0).head? a []
+      r.2.1.map (·.2) = [1] ∧ r.1.seq 0 = [1, 2] ∧ r.1.seq 1 = [0]) := by
+  decide
+
+/-- **A family of `SList`s over one node store** (what the `flip` / re-link histories of the
+harness run: the driver executes `SFam.apply` on the list in focus).  `FAbs`: every list satisfies
+the `SList` invariant on its own sequence (`Next`-traversal = sequence, `tail` = last node, `len`),
+no node is in two lists, nodes outside EVERY list have `next == nil`.
+
+1. The family of zero-value lists is related to empty sequences.
+2. From related states every history of calls `(k, op)` on any lists of the family — arbitrary
+   integer indices; node forms given a node that is in no list — runs without panic, returns the
+   results of the sequence semantics, and ends in related states.
+3. Frame: a call on list `k` changes no other sequence.
+4. A node returned by ANY removing call (`Remove(i)`, `RemoveFront`) on any list is detached: it
+   may be handed to every node form (`PushFrontNode`, `PushBackNode`, `InsertNodeAt i`) of EVERY
+   list of the family, i.e. that call is allowed (`FOk`) in the resulting state. -/
+theorem c13_slist_family_refines :
+    (∀ nl, FAbs SFam.zero (FA.zero nl)) ∧
+    (∀ (F : SFam) (a : FA), FAbs F a → ∀ ops : List (Nat × SOp), FOpsOk a ops →
+      ∃ F', F.run ops = some (F', (a.run ops).2) ∧ FAbs F' (a.run ops).1) ∧
+    (∀ (a : FA) (k j : Nat) (op : SOp), j ≠ k → (a.apply k op).1.seq j = a.seq j) ∧
+    (∀ (F : SFam) (a : FA) (k : Nat) (op : SOp) (x : Nat), FAbs F a → k < a.nl →
+      (op = .removeFront ∨ ∃ i, op = .remove i) → (a.apply k op).2 = .ptr (some x) →
+      ∀ j i', j < a.nl → FOk (a.apply k op).1 j (.pushFrontNode x) ∧
+        FOk (a.apply k op).1 j (.pushBackNode x) ∧ FOk (a.apply k op).1 j (.insertNodeAt i' x)) := by
+  refine ⟨fabs_zero, fun F a h ops hok => frun_refines h ops hok, fa_frame, ?_⟩
+  intro F a k op x h hk hop hres j i'
+  -- the returned node was in list `k`, and is in no list afterwards
+  have hkok : FOk a k op := by rcases hop with rfl | ⟨i, rfl⟩ <;> exact hk
+  obtain ⟨F', _, h'⟩ := fapply_refines h op hkok
+  have hnd := (h.lists k hk).nodup
+  have key : x < (a.apply k op).1.fresh ∧ ∀ j, j < (a.apply k op).1.nl → x ∉ (a.apply k op).1.seq j := by
+    have hmem : x ∈ a.seq k ∧ x ∉ (a.apply k op).1.seq k ∧ (a.apply k op).1.fresh = a.fresh := by
+      rcases hop with rfl | ⟨i, rfl⟩
+      · simp only [FA.apply, FA.put, FA.view, SA.apply, upd_same] at hres ⊢
+        cases hL : a.seq k with
+        | nil => rw [hL] at hres; simp at hres
+        | cons y ys =>
+          rw [hL] at hres hnd; simp at hres; subst hres
+          simp [List.nodup_cons] at hnd; simp [hnd.1]
+      · simp only [FA.apply, FA.put, FA.view, SA.apply, upd_same] at hres ⊢
+        by_cases hr : 0 ≤ i ∧ i < ((a.seq k).length : Int)
+        · simp only [hr, and_self, ↓reduceIte] at hres ⊢
+          have hlt : i.toNat < (a.seq k).length := by omega
+          rw [List.getElem?_eq_getElem hlt] at hres
+          have hx : (a.seq k)[i.toNat] = x := by simpa using hres
+          have hs := split_at hlt
+          rw [hx] at hs
+          refine ⟨by rw [hs]; simp, ?_, trivial⟩
+          rw [List.eraseIdx_eq_take_drop_succ]
+          rw [hs] at hnd
+          simp [List.nodup_append] at hnd ⊢
+          grind
+        · simp only [hr, ↓reduceIte] at hres; simp at hres
+    refine ⟨by rw [hmem.2.2]; exact h.alloc k hk x hmem.1, fun j hj => ?_⟩
+    by_cases hjk : j = k
+    · subst hjk; exact hmem.2.1
+    · rw [fa_frame a k j op hjk]
+      exact h.disj k j hk (by rcases hop with rfl | ⟨i, rfl⟩ <;> exact hj) (Ne.symm hjk) x hmem.1
+  have hnl : (a.apply k op).1.nl = a.nl := by rcases hop with rfl | ⟨i, rfl⟩ <;> rfl
+  simp only [FOk, hnl] at key ⊢
+  exact fun hj => ⟨⟨hj, key⟩, ⟨hj, key⟩, ⟨hj, key⟩⟩
+
+/-- Non-vacuity of `c13_slist_family_refines`: nodes returned by `Remove(0)`, `RemoveFront` and
+`Remove(i)` of list 0 are re-linked through the three node forms into list 1 and back into list 0;
+`Next` follows the node into its new list. -/
+example : ∃ ops : List (Nat × SOp),
+    FOpsOk (FA.zero 2) ops ∧ ((FA.zero 2).run ops).1.seq 0 = [2] ∧
+      ((FA.zero 2).run ops).1.seq 1 = [3, 0, 1] ∧
+      ((FA.zero 2).run ops).2.map showRes =
+        ["ok", "ok", "ok", "ok", "0", "ok", "1", "ok", "3", "ok", "0", "nil", "ok", "nil"] :=
+  ⟨[(0, .pushBack 1), (0, .pushBack 2), (0, .pushBack 3), (0, .pushBack 4), (0, .remove 0),
+    (1, .pushBackNode 0), (0, .removeFront), (1, .insertNodeAt 7 1), (0, .remove 1), (1, .pushFrontNode 3),
+    (1, .next 3), (1, .next 1), (1, .swap 0 1), (0, .next 2)], by decide⟩
+
+/-- **Struct copies are outside the property — machine-checked.**  `*b = *a` of a NON-EMPTY list
+copies the sentinel (`DList`: `root.next`/`root.prev`/`len`; `SList`: `head`/`tail`/`len`) by value
+while the nodes stay shared.  In the model the result satisfies the representation invariant for
+NO assignment of sequences: the copied `DList`'s ring does not return to its own sentinel
+(`first.prev == &a.root`), the two `SList` values claim the same nodes.  So no theorem of this file
+applies to a copy, exactly as for a copied `container/list.List`. -/
+theorem c13_struct_copy_breaks :
+    (∀ (s : DSt) (A : Nat → List Nat) (a b : Nat), GInv s A → a < s.nl → b < s.nl → a ≠ b → A a ≠ [] →
+      ¬ ∃ A', GInv (s.copyList a b) A') ∧
+    (∀ (F : SFam) (A : FA) (a b : Nat), FAbs F A → a < A.nl → b < A.nl → a ≠ b → A.seq a ≠ [] →
+      ¬ ∃ A' : FA, A'.nl = A.nl ∧ FAbs (F.copyList a b) A') :=
+  ⟨fun _ _ _ _ h ha hb hab hne => dlist_copy_breaks h ha hb hab hne,
+   fun _ _ _ _ h ha hb hab hne => slist_copy_breaks h ha hb hab hne⟩
+
+/-- Non-vacuity of `c13_struct_copy_breaks`: after one `PushBack` on list 0 of two zero-value lists
+the hypotheses hold, for `DList` and for `SList`. -/
+example : (∃ (s : DSt) (A : Nat → List Nat), GInv s A ∧ 0 < s.nl ∧ 1 < s.nl ∧ A 0 ≠ []) ∧
+    (∃ (F : SFam) (A : FA), FAbs F A ∧ 0 < A.nl ∧ 1 < A.nl ∧ A.seq 0 ≠ []) := by
+  constructor
+  · obtain ⟨s1, _, g1, _, n1, _⟩ := pushBack_spec (l := 0) 7 (c13_zero_value 2) (by decide)
+    exact ⟨s1, _, g1, by rw [n1]; decide, by rw [n1]; decide, by simp [upd]⟩
+  · obtain ⟨F1, _, h1⟩ := fapply_refines (k := 0) (fabs_zero 2) (.pushBack 7) (by decide)
+    exact ⟨F1, _, h1, by decide, by decide, by decide⟩
 
 /-- Non-vacuity: starting from two zero-value lists, `PushBack 7` on list 0, `PushFront 8` on
 list 0 and `PushBack 9` on list 1 reach (by the theorems above) a state satisfying the invariant
